@@ -35,7 +35,7 @@ COMPILED = [sv.compile(t, custom=CUSTOM_TXT) for t in TEXTS]
 TREES = []
 for _i in range(30 if TIER == 'quick' else 100):
     _k = ('html', 'html', 'xml', 'detached')[_i % 4]
-    TREES.append((_k,) + tg.random_tree(_r, _k))
+    TREES.append((_k,) + (tg.twin_tree(_r, _k) if _i % 3 == 2 else tg.random_tree(_r, _k)))
 TREES.append(('html', tg.doc('plain_hp'), None))
 TREES.append(('html', tg.doc('multiroot_hp'), None))
 NT = len(TREES)
